@@ -277,8 +277,42 @@ pub fn size_boundary_docs() -> Vec<Vec<Node>> {
         // nested: the inner master's content hits the boundary, and another element follows
         out.push(vec![Node::master(ID_ROOT, vec![Node::master(ID_M, vec![Node::master(ID_N, vec![Node::master(ID_K, vec![Node::master(ID_L, vec![Node::leaf(ID_LB, Val::B(vec![0xa5; len - 2]))])])])]), Node::leaf(ID_U, Val::U(9))])]);
     }
+    // an inner master with a 1-byte size field whose content is 123..127 bytes, nested in known-size masters
+    // (its header pushes the outer content across the boundary as well)
+    for p in 104usize..=110 {
+        let mut m = Node::master(ID_M, vec![Node::master(ID_N, vec![Node::master(ID_K, vec![Node::master(ID_L, vec![Node::leaf(ID_LB, Val::B(vec![0x3c; p]))])])])]);
+        m.size = SizeEnc::Width(1);
+        out.push(vec![Node::master(ID_ROOT, vec![m])]);
+    }
     // unknown-id raw tag with boundary payload (reader must allow unknown ids)
     out.push(vec![Node::master(ID_ROOT, vec![Node { id: 0xf2, kind: Kind::RawLeaf(vec![0x11; 127]), size: SizeEnc::Min }])]);
     out.push(vec![Node::master(ID_ROOT, vec![Node { id: 0x4f00, kind: Kind::RawLeaf(vec![]), size: SizeEnc::Min }, Node { id: 0x0100000000000003, kind: Kind::RawLeaf(vec![1, 2, 3]), size: SizeEnc::Min }])]);
+    out
+}
+
+/// Documents longer than the reader's 64 KiB buffer whose elements with 9..16-byte headers (8-byte size fields,
+/// the 8-byte id of L) sit at every alignment around the buffer boundary. `variant` selects known / unknown-size
+/// encodings of the masters around them.
+pub fn buffer_boundary_docs(pads: usize) -> Vec<Vec<Node>> {
+    use crate::spec::*;
+    let mut out = Vec::new();
+    for pad in 0..pads {
+        for variant in 0..4u8 {
+            let filler = Node::leaf(ID_B, Val::B(vec![0x6b; 65536 - 48 + pad]));
+            let mut mu = Node::leaf(ID_MU, Val::U(5));
+            mu.size = SizeEnc::Width(8);
+            let mut l = Node::master(ID_L, vec![Node::leaf(ID_LB, Val::B(vec![1, 2]))]);
+            l.size = if variant & 2 != 0 { SizeEnc::Unknown(8) } else { SizeEnc::Width(8) };
+            let mut m = Node::master(ID_M, vec![mu, Node::master(ID_N, vec![Node::master(ID_K, vec![l])])]);
+            m.size = if variant & 2 != 0 { SizeEnc::Unknown(1) } else { SizeEnc::Width(8) };
+            let mut u = Node::leaf(ID_U, Val::U(77));
+            u.size = SizeEnc::Width(7);
+            let mut root = Node::master(ID_ROOT, vec![filler, m, u, Node::leaf(ID_S, Val::S("tail".into()))]);
+            if variant & 1 != 0 {
+                root.size = SizeEnc::Unknown(8);
+            }
+            out.push(vec![root]);
+        }
+    }
     out
 }
